@@ -469,6 +469,26 @@ func classifyLoop(l *Loop) {
 				l.Detail = fmt.Sprintf("induction variable from %d step %d while %s %d: at most %d iterations", init, step, bin.Op, bound, trips)
 				return
 			}
+			// counting down: phi = [c0, phi - step] while phi > / >= bound (phi on the left), or bound < phi
+			okDown := false
+			var down int64
+			for _, e := range phi.Edges {
+				if b2, isB := e.(*ssa.BinOp); isB && b2.X == ssa.Value(phi) && b2.Op == token.SUB {
+					if s, c := ConstInt(b2.Y); c && s > 0 {
+						okDown, down = true, s
+					}
+				}
+			}
+			downOp := (side == bin.X && (bin.Op == token.GTR || bin.Op == token.GEQ)) || (side == bin.Y && (bin.Op == token.LSS || bin.Op == token.LEQ))
+			if okInit && okDown && downOp {
+				trips := (init - bound + down) / down
+				if trips < 0 {
+					trips = 0
+				}
+				l.Class = "counted"
+				l.Detail = fmt.Sprintf("induction variable from %d step -%d while above %d: at most %d iterations", init, down, bound, trips)
+				return
+			}
 			if okShrink && (bin.Op == token.GEQ || bin.Op == token.GTR) {
 				l.Class = "shrinking"
 				l.Detail = fmt.Sprintf("value shrinks by >>/÷ %d per iteration while %s %d", step, bin.Op, bound)
